@@ -21,17 +21,21 @@
 EXTENDS Naturals, Sequences, FiniteSets, SequencesExt, TLC, Json
 
 CONSTANTS MaxTokens, MaxNest,
-          OnlyValid    \* TRUE: grow viable strings only (used with -simulate for long expressions)
+          OnlyValid,   \* TRUE: grow viable strings only (used with -simulate for long expressions)
+          Small        \* TRUE: a reduced alphabet (one field name, one type, one scalar kind, no indices), with which
+                       \*       all viable strings of twice the length can be enumerated - long enough for a nested
+                       \*       block followed by a dotted path into it
 
-Idents   == {"a", "b", "type"}  \* field names; a field may itself be called "type" and then competes with the implicit key
-Types    == {"T", "U"}          \* type names (identifiers too)
-Scalars  == {"STRING", "INTEGER", "FLOAT"}
-Punct    == {"{", "}", ",", "=", ".", "[", "]"}
+Idents   == IF Small THEN {"a"} ELSE {"a", "b", "type"}  \* field names; a field may itself be called "type" and then competes with the implicit key
+Types    == IF Small THEN {"T"} ELSE {"T", "U"}          \* type names (identifiers too)
+Scalars  == IF Small THEN {"INTEGER"} ELSE {"STRING", "INTEGER", "FLOAT"}
+Punct    == IF Small THEN {"{", "}", ",", "=", "."} ELSE {"{", "}", ",", "=", ".", "[", "]"}
 \* a token is [k |-> kind, t |-> text]; IDENT texts range over Idents \cup Types
 Tokens   == { [k |-> "IDENT", t |-> x] : x \in Idents \cup Types }
             \cup { [k |-> s, t |-> s] : s \in Scalars }
             \cup { [k |-> p, t |-> p] : p \in Punct }
-            \cup { [k |-> "INTEGER", t |-> "IDX"] }     \* a second integer text, used inside [ ]
+            \cup (IF Small THEN { [k |-> "INTEGER", t |-> "I2"] }     \* a second integer text (values must differ to tell which assignment won)
+                  ELSE { [k |-> "INTEGER", t |-> "IDX"] })            \* ... used inside [ ]
 
 VARIABLES toks,     \* token string so far
           st,       \* parser state
